@@ -453,7 +453,7 @@ def get_prior(mid, gen, prior, par='', aux=''):
 CUSTOM = [
     ('((cov/std) - median) * theta', lambda c, t, s: ((c / s['std']) - s['median']) * t[0], ('std', 'median'), 1),  # user guide
     ('1 + theta*(cov - mean)', lambda c, t, s: 1 + t[0] * (c - s['mean']), ('mean',), 1),
-    ('exp(theta1*(cov - median)) + theta2*cov/mean', lambda c, t, s: math.exp(t[0] * (c - s['median'])) + t[1] * c / s['mean'], ('median', 'mean'), 2),
+    ('exp(theta1*(cov - median)) + theta2*cov/mean', lambda c, t, s: F._exp(t[0] * (c - s['median'])) + t[1] * c / s['mean'], ('median', 'mean'), 2),
     ('theta*cov', lambda c, t, s: t[0] * c, (), 1),
 ]
 EFFECTS = ['lin', 'cat', 'cat2', 'piece_lin', 'exp', 'pow'] + [f'custom{i}' for i in range(len(CUSTOM))]
@@ -540,7 +540,7 @@ def run_covariate(spec):
     cvals = [v for v in cols[cov] if v == v]
     spread = max(cvals) - min(cvals)
     # thetas scaled to the spread of the covariate so that exp / lin effects stay in a comparable range
-    scale = 1.0 if (effect in F.CATEGORICAL_EFFECTS or effect == 'pow' or custom is not None) else max(1.0, spread)
+    scale = 1.0 if (effect in F.CATEGORICAL_EFFECTS or effect == 'pow') else max(1.0, spread)
     thvals = {t: _gval(i + 3, k, -0.35, 0.35) / scale for i, t in enumerate(thetas)}
     covval = p1.data[cov]
     matched_ref = None
